@@ -18,7 +18,7 @@ def misc_cases(rng, n):
             {"fn": "reject_misc", "kind": "len_mismatch_list", "m": rng.randint(2, 30), "d": rng.choice([-1, 1, 3])},
             {"fn": "reject_misc", "kind": "bad_2d", "shape": rng.choice([[5, 3], [5, 1], [2, 5], [4, 2, 2], [6], [2], [1], [3], [1, 1, 2], [2, 2, 2], [0]])},
             {"fn": "reject_misc", "kind": "unknown_dataset", "name": rng.choice(["no-such-dataset", "sandvine", "sandvine-foo", "mix-it", "ams_ix_unknown", ""])},
-            {"fn": "reject_misc", "kind": "unknown_strategy", "name": rng.choice(["nearest", "Closest", "", "lowest", " closest", "lower ", "HIGHER"])},
+            {"fn": "reject_misc", "kind": "unknown_strategy", "name": rng.choice(["nearest", "Closest", "", "lowest", " closest", "lower ", "HIGHER"]), "form": rng.randrange(10)},
             {"fn": "reject_misc", "kind": "unknown_rule", "name": rng.choice(["simpson", "Trapezoid", "rect", "", "trapezoid ", " rectangle", "RECTANGLE"])},
             {"fn": "reject_misc", "kind": "unknown_method", "name": rng.choice(["quadratic", "Linear", "nearest", "", "linear ", " constant", "CUBIC", "Spline"])},
             {"fn": "reject_misc", "kind": "no_sampler", "m": rng.randint(3, 9)},
